@@ -1,3 +1,4 @@
+pub mod alloc;
 pub mod chain;
 pub mod ctx;
 pub mod gen;
